@@ -203,3 +203,143 @@ void ok_div0__guarded(dig_t *c, const bn_t a, dig_t b) {
 void bad_div0__unguarded(dig_t *c, const bn_t a, dig_t b) {
 	*c = a->dp[0] % b;
 }
+
+/* ------------------------------------------------------------------ REC-GUARD (bounds in force at the write) */
+/* the column count grows after the capacity was tested against it */
+void bad_rec_guard__grown__bn_rec_sac(int8_t *b, size_t *len, const bn_t *k, const bn_t u, size_t c, size_t m, size_t n, int cof) {
+	size_t l = RLC_CEIL(n, c * m) + 1;
+	if (*len <= l) {
+		*len = 0;
+		RLC_THROW(ERR_NO_BUFFER);
+		return;
+	}
+	l = RLC_MAX(l, bn_bits(u) + 1);
+	memset(b, 0, *len);
+	b[l - 1] = 0;
+	*len = l;
+}
+
+/* ... and is tested again before the writes */
+void ok_guard__regrown__bn_rec_sac(int8_t *b, size_t *len, const bn_t *k, const bn_t u, size_t c, size_t m, size_t n, int cof) {
+	size_t l = RLC_CEIL(n, c * m) + 1;
+	if (*len <= l) {
+		*len = 0;
+		RLC_THROW(ERR_NO_BUFFER);
+		return;
+	}
+	l = RLC_MAX(l, bn_bits(u) + 1);
+	if (*len < l) {
+		*len = 0;
+		RLC_THROW(ERR_NO_BUFFER);
+		return;
+	}
+	memset(b, 0, *len);
+	b[l - 1] = 0;
+	*len = l;
+}
+
+/* a data-dependent number of entries, each store bounded by the capacity */
+void ok_guard__indexed__bn_rec_tnaf(int8_t *tnaf, size_t *len, const bn_t k, int8_t u, size_t m, size_t w) {
+	size_t i = 0;
+	bn_t t;
+	bn_null(t);
+	if (*len < 1) {
+		*len = 0;
+		RLC_THROW(ERR_NO_BUFFER);
+		return;
+	}
+	RLC_TRY {
+		bn_new(t);
+		bn_abs(t, k);
+		while (!bn_is_zero(t)) {
+			if (i < *len) {
+				tnaf[i] = bn_is_even(t);
+				i++;
+			}
+			bn_hlv(t, t);
+		}
+		*len = i;
+	} RLC_CATCH_ANY {
+		RLC_THROW(ERR_CAUGHT);
+	} RLC_FINALLY {
+		bn_free(t);
+	}
+}
+
+/* ------------------------------------------------------------------ WRAP */
+void ok_wrap__guarded(dig_t *c, const dig_t *a, size_t size, uint_t digits) {
+	size_t i;
+	if (digits > size) {
+		digits = size;
+	}
+	for (i = 0; i < size - digits; i++) {
+		c[i] = a[i + digits];
+	}
+}
+
+void ok_wrap__sum(uint8_t *win, const bn_t k, size_t w) {
+	int i, j = 0, l = bn_bits(k);
+	for (i = 0; i + w < l; i += w) {
+		win[j++] = 1;
+	}
+}
+
+/* size - digits wraps for digits > size: the loop runs off both vectors */
+void bad_wrap__difference(dig_t *c, const dig_t *a, size_t size, uint_t digits) {
+	size_t i;
+	for (i = 0; i < size - digits; i++) {
+		c[i] = a[i + digits];
+	}
+}
+
+/* ------------------------------------------------------------------ WRITE-GUARD */
+void ok_wguard__tested_first(char *str, size_t len, const bn_t a) {
+	if (len < 2) {
+		RLC_THROW(ERR_NO_BUFFER);
+		return;
+	}
+	if (bn_is_zero(a)) {
+		str[0] = '0';
+		str[1] = '\0';
+		return;
+	}
+	memset(str, 0, len);
+}
+
+/* the short form is written before the capacity has been looked at */
+void bad_write_guard__fast_path(char *str, size_t len, const bn_t a) {
+	if (bn_is_zero(a)) {
+		str[0] = '0';
+		str[1] = '\0';
+		return;
+	}
+	if (len < 2) {
+		RLC_THROW(ERR_NO_BUFFER);
+		return;
+	}
+	memset(str, 0, len);
+}
+
+/* ------------------------------------------------------------------ REALLOC-KEEP */
+struct st_vec {
+	dig_t *dp;
+	size_t alloc;
+};
+
+void ok_realloc__temporary(struct st_vec *a, size_t digits) {
+	dig_t *t = (dig_t *)realloc(a->dp, (RLC_DIG / 8) * digits);
+	if (t == NULL) {
+		RLC_THROW(ERR_NO_MEMORY);
+		return;
+	}
+	a->dp = t;
+}
+
+/* a failed reallocation overwrites the only pointer to the digits */
+void bad_realloc_keep__overwrites_only_dyn(struct st_vec *a, size_t digits) {
+	a->dp = (dig_t *)realloc(a->dp, (RLC_DIG / 8) * digits);
+	if (a->dp == NULL) {
+		RLC_THROW(ERR_NO_MEMORY);
+		return;
+	}
+}
